@@ -53,7 +53,7 @@ def rand_aut(rng, alphabets=STR_ALPHABETS):
 def gen_automata(rng, n, exhaustive=((1, 3), (2, 2)), alphabets=STR_ALPHABETS):
     if n >= 4000:       # thorough tier: every automaton with 2 states x 3 labels and 3 states x 2 labels as well
         exhaustive = tuple(exhaustive) + ((2, 3), (3, 2))
-    out = []
+    out = [{"init": copy.deepcopy(i), "ops": []} for i in U.boundary_inits()]           # G14: the ends of every range, always
     for ns, nl in exhaustive:
         out += [{"init": i, "ops": []} for i in exhaustive_inits(ns, nl)]
     if n < len(out):
@@ -594,6 +594,10 @@ def run_rlp_oracle(inp):
         on_shortest = {(t, l, h) for t, l, h in ref.E if t in dist and dist.get(h) == dist[t] + 1}
         for ties in (True, False):
             H = A.remove_long_paths(root=root, edge_ties=ties)
+            Hd = A.remove_long_paths(root=root, edge_ties=ties, return_distances=True)       # G17: the three options together
+            Hd = Hd[0] if isinstance(Hd, tuple) else Hd
+            if ties and U.canon(U.views(Hd)) != U.canon(U.views(H)):
+                bad.append(["rlp-return_distances-changes-the-result", root, ties])
             vw = U.views(H)
             g, o, i = U.edge_counts(vw)
             kept = set(g)
@@ -774,6 +778,84 @@ def gen_alias_oracle(rng, n):
                 a["init"]["starts"] = a["init"]["starts"] + [rng.choice(U.VS)]      # several start vertices
             autos.append(a)
         yield {"autos": autos}
+
+
+
+# ------------------------------------------------------------------ oracle: derived automata as inputs of further operations
+CHAIN_OPS = ["copy", "recurrent", "rename", "multiple2", "multiple3", "multiple1", "rlp"]
+
+
+def run_chain_oracle(inp):
+    """G18: multiple of a multiple, recurrent of a renamed copy, shortest-path version of a recurrent version, …
+    every intermediate automaton is compared with the reference of the same chain"""
+    A, ref = make(inp)
+    starts = list(A.start_vertices)
+    bad = []
+    originals = []
+    for n, how in enumerate(inp["chain"]):
+        before = snap(A)
+        if how == "copy":
+            B, r2, st2 = copy.deepcopy(A), ref.clone(), list(starts)
+        elif how == "recurrent":
+            B = A.recurrent(inplace=False)
+            r2 = ref.clone(); r2.recurrent(); st2 = list(starts)
+        elif how == "rename":
+            labs = labels_of(ref)
+            m = {l: labs[(j + 1) % len(labs)] for j, l in enumerate(labs)}      # a cyclic shift: injective on the labels in use
+            B = A.rename_generators(dict(m), inplace=False)
+            r2 = U.Ref(ref.V, {(t, m[l], h) for t, l, h in ref.E}); st2 = list(starts)
+        elif how.startswith("multiple"):
+            k = int(how[-1])
+            if not starts or not set(starts) <= ref.V or not all(isinstance(l, str) for l in labels_of(ref)):
+                break
+            if multiple_pops(ref, starts, k, 150) > 150:
+                break
+            with U.time_limit(MULT_SECONDS):
+                B = A.automaton_multiple(k)
+            r2 = multiple_ref(ref, starts, k); st2 = list(starts)
+        else:
+            if not starts or starts[0] not in ref.V:
+                break
+            B = A.remove_long_paths(edge_ties=True)
+            r0 = starts[0]
+            dist, dq = {r0: 0}, collections.deque([r0])
+            while dq:
+                v = dq.popleft()
+                for t, l, h in ref.E:
+                    if t == v and h not in dist:
+                        dist[h] = dist[v] + 1
+                        dq.append(h)
+            r2 = U.Ref(ref.V, {(t, l, h) for t, l, h in ref.E if t in dist and dist.get(h) == dist[t] + 1}); st2 = [r0]
+        pb = U.coherence_problems(U.views(B), r2)
+        if list(B.start_vertices) != st2:
+            pb.append("start-list")
+        if pb:
+            bad.append(["step %d (%s) of the chain" % (n, how)] + pb)
+            break
+        if snap(A) != before:
+            bad.append(["step %d (%s) changed its input" % (n, how)])
+            break
+        originals.append((A, before))
+        if len(labels_of(r2)) <= 6:            # the query families are exhaustive over the alphabet: keep them for small ones
+            check_lang(B, r2, 2, 2, bad, "after %s" % "+".join(inp["chain"][:n + 1]))
+        if bad:
+            break
+        A, ref, starts = B, r2, st2
+    for X, s0 in originals:
+        if snap(X) != s0:
+            bad.append(["an earlier automaton of the chain changed later"])
+            break
+    return {"bad": bad[:3]}
+
+
+def gen_chain_oracle(rng, n):
+    for a in gen_automata(rng, n, exhaustive=(), alphabets=("default", "case")):
+        a = dict(a)
+        chain = [rng.choice(CHAIN_OPS) for _ in range(rng.choice([2, 3, 3, 4]))]
+        while sum(1 for c in chain if c in ("multiple2", "multiple3")) > 2:          # at most k = 9 in total
+            chain[max(j for j, c in enumerate(chain) if c in ("multiple2", "multiple3"))] = "multiple1"
+        a["chain"] = chain
+        yield a
 
 
 
@@ -1007,6 +1089,12 @@ CLAUSES = [
            what="for each (method, option with a default) found by inspect: the boolean negated / a vertex supplied; result compared with the "
                 "set reference (elist, ignore_redundant, inplace, root, edge_ties, return_distances, start_vertex, with_states, with_labels, "
                 "graph_dict); an option the harness has no semantics for is exercised and must leave the automaton intact"),
+    Clause("chain_oracle", "oracle", gen_chain_oracle, U.bounded(run_chain_oracle),
+           judge_bad("derived automata are automata: each operation applied to the RESULT of another one gives what the reference gives for the chain"),
+           site="fsa.FSA non-in-place operations composed", budget={"quick": 200, "thorough": 4000},
+           what="chains of 2-4 operations out of deepcopy / recurrent / rename / multiple 1-3 / remove_long_paths (multiple of a multiple, "
+                "recurrent of a renamed copy, shortest-path version of a recurrent version …): views, start list and every query family of "
+                "each intermediate result vs the reference, inputs unchanged"),
     Clause("alias_oracle", "oracle", gen_alias_oracle, U.bounded(run_alias_oracle),
            judge_bad("automata of one process are independent objects: editing a derived automaton (views or start list) never changes the original, "
                      "and vice versa; the constructor neither keeps nor modifies its arguments; later constructions never change earlier automata"),
